@@ -20,10 +20,20 @@ its start - the last four can be read once only; the result must be the same tar
 scripts are supplied again in every kind for lists of length <= 2 and as iter(list) and io stream for length 3; each must
 still raise ValueError.  One case = one script with all its other kinds.  A failure that the list form of the same script
 shows too is left to the list case; one that only other kinds show is reported as ed/input-kind/<which kinds>/...
+
+Routes: the same scripts (valid ones of the base space with both lists of length <= 3 and of the 'long' space; corrupted /
+truncated ones for lists of length <= 2, thorough: <= 3 and two routes up to 4) once more along the other public ways of
+doing the same thing: a caller-compiled re_cmd (keyword and positional), the deprecated aliases patchesFromEdScript /
+patchLines, keyword arguments, the patches materialised as a list / as an iterator over a tuple before they are applied,
+applied one at a time, applied by the slice assignment the triples are documented to mean, a list subclass as the line
+store, a second reader of the other type alive and advanced in step, and lines and script without their newlines
+(what str.splitlines() gives).  A failure only routes show is reported as ed/route/<which routes>/...
 """
 import io
 import os
+import re
 import tempfile
+import warnings
 
 from .. import core
 from ..models import edscript
@@ -50,6 +60,7 @@ BADS = [("garbage", "x\n"), ("unknown-command", "1z\n"), ("non-numeric-range", "
         # white space or a carriage return around an otherwise valid command is not part of the syntax
         ("trailing-cr", "1d\r\n"), ("trailing-blank", "1d \n"), ("leading-blank", " 1d\n"), ("trailing-cr-append", "1a\r\n")]
 MAXLEN = {"quick": 4, "thorough": 7}
+CHAIN_MAXLEN = {"quick": 2, "thorough": 3}
 EXT_MAXLEN = {"quick": 3, "thorough": 5}
 CORRUPT_MAXLEN = {"quick": 3, "thorough": 5}
 KINDS = ["tuple", "iter", "generator", "stream", "file"]        # besides "list"
@@ -89,6 +100,10 @@ def bounds(tier):
                            "and of the long space; corrupted / truncated scripts: all of these kinds for lists of length "
                            "<= %d, %r for length <= %d" % (KINDS, KIND_MAXLEN[tier], KIND_CORRUPT_ALL_MAXLEN[tier], KINDS_FEW,
                                                           CORRUPT_MAXLEN[tier]),
+            "routes": "%r for every valid script of the base space with both lists of length <= %d and of the long space; %r for "
+                      "corrupted / truncated scripts of lists of length <= %d%s" % (
+                          ROUTES, KIND_MAXLEN[tier], REJECT_ROUTES, ROUTE_REJECT_ALL_MAXLEN[tier],
+                          "" if not ROUTE_REJECT_FEW_MAXLEN[tier] else ", %r up to length %d" % (REJECT_ROUTES_FEW, ROUTE_REJECT_FEW_MAXLEN[tier])),
             "corruptions": "pairs of length <= %d of the base space: every command line x %r; every cut inside a text "
                            "block" % (CORRUPT_MAXLEN[tier], [b for _, b in BADS])}
     if tier != "quick":
@@ -112,6 +127,12 @@ def assumptions():
             "line ends) are all inside the domain and work on the unchanged library; 'open file' is an anonymous temporary "
             "file (text mode UTF-8 / binary mode) written, flushed and positioned at 0; a bare str / bytes object is not a "
             "script (iterating it gives characters / ints)",
+            "routes: re_cmd is the caller's own compiled pattern for the same command syntax (str pattern for str lines, "
+            "bytes pattern for bytes lines); a patch is the documented triple (first index, one past the last, replacement "
+            "lines), so applying it by slice assignment is the same operation; lines without newlines are what "
+            "str.splitlines() gives - the library's own terminator test names '.' next to '.\\n' - and in that form an empty "
+            "string is the library's end-of-stream marker, so empty content lines are not generated there (none of the line "
+            "alphabets has one)",
             "edscript.diff / edscript.apply are self-checked on the length <= 3 universe and every diff -e script used is "
             "first validated by edscript.apply"]
 
@@ -155,6 +176,9 @@ def units(tier, seed):
     for n in long_sizes(tier):
         out += [{"space": "long", "old": ["l%d\n" % i for i in range(1, n + 1)], "first": h}
                 for h in range(len(long_hunks(n)))]
+    # two successive scripts (old -> mid -> new, as a series of pdiffs) given as ONE script: ed commands act one after the
+    # other, each on the result of those before it
+    out += [{"space": "chain", "old": old} for old in edscript.all_lists(sym, CHAIN_MAXLEN[tier])]
     return out
 
 
@@ -206,6 +230,8 @@ def long_news(old, first):
 
 
 def unit_cost(u, tier):
+    if u.get("space") == "chain":
+        return 170 if tier == "quick" else 1600
     if tier != "quick":
         if "olds" in u:
             return {"base": 3300, "ext": 3900, "look": 1000}[u["space"]] * len(u["olds"])
@@ -343,9 +369,136 @@ def _kinds(case, binary):
             "%r for the script given as %s, as for the list" % (exp, ", ".join(names)), "%s: %s" % (kind, obs))
 
 
+# ------------------------------------------------------------------------------------------------ other routes
+
+ROUTES = ["re_cmd-keyword", "re_cmd-positional", "aliases", "keyword-arguments", "patches-as-list", "patches-as-tuple-iterator",
+          "one-patch-at-a-time", "slice-assignment", "list-subclass", "two-readers-alive", "lines-without-newlines"]
+# routes that make a difference to a script that has to be refused (the reader is what refuses)
+REJECT_ROUTES = ["re_cmd-keyword", "re_cmd-positional", "aliases", "keyword-arguments", "patches-as-list", "two-readers-alive",
+                 "lines-without-newlines"]
+REJECT_ROUTES_FEW = ["re_cmd-keyword", "lines-without-newlines"]
+ROUTE_REJECT_ALL_MAXLEN = {"quick": 2, "thorough": 3}
+ROUTE_REJECT_FEW_MAXLEN = {"quick": 0, "thorough": 4}
+# a caller's own command pattern (the documented use of re_cmd): the same syntax, compiled by the caller
+OWN_RE = {False: re.compile(r"^(\d+)(?:,(\d+))?([acd])$"), True: re.compile(br"^(\d+)(?:,(\d+))?([acd])$")}
+
+
+class _List(list):
+    """a list subclass (what an application may keep its lines in)"""
+
+
+def _strip(ls):
+    return [l[:-1] for l in ls]
+
+
+def _apply_via(route, lines, script, binary, other_script):
+    """apply `script` to `lines` (in place) along one route; other_script: the same script in the other type"""
+    import debian.debian_support as ds
+    pfes, pl = ds.patches_from_ed_script, ds.patch_lines
+    if route == "re_cmd-keyword":
+        pl(lines, pfes(script, re_cmd=OWN_RE[binary]))
+    elif route == "re_cmd-positional":
+        pl(lines, pfes(iter(script), OWN_RE[binary]))
+    elif route == "aliases":
+        with warnings.catch_warnings():
+            warnings.simplefilter("ignore")
+            ds.patchLines(lines, ds.patchesFromEdScript(script))
+    elif route == "keyword-arguments":
+        pl(lines=lines, patches=pfes(source=script, re_cmd=None))
+    elif route == "patches-as-list":
+        pl(lines, list(pfes(script)))
+    elif route == "patches-as-tuple-iterator":
+        pl(lines, iter(tuple(pfes(script))))
+    elif route == "one-patch-at-a-time":
+        for p in pfes(script):
+            pl(lines, [p])
+    elif route == "slice-assignment":
+        # what the triples are documented to mean
+        for first, last, repl in pfes(script):
+            lines[first:last] = repl
+    elif route == "list-subclass":
+        held = _List(lines)
+        pl(held, pfes(_List(script)))
+        if type(held) is not _List:
+            raise AssertionError("patch_lines replaced the object")
+        lines[:] = list(held)
+    elif route == "two-readers-alive":
+        # a second reader (the same script in the other type) is alive and advanced in step with the first
+        g1, g2 = pfes(script), pfes(other_script)
+        mine, done2 = [], False
+        while True:
+            try:
+                mine.append(next(g1))
+            except StopIteration:
+                break
+            if not done2:
+                try:
+                    next(g2)
+                except (StopIteration, ValueError):
+                    done2 = True
+        pl(lines, mine)
+    elif route == "lines-without-newlines":
+        bare = _strip(lines)
+        pl(bare, pfes(_strip(script)))
+        nl = b"\n" if binary else "\n"
+        lines[:] = [l + nl for l in bare]
+    else:
+        raise KeyError(route)
+
+
+def _route_one(case, binary, route):
+    """like _one, for one route -> None or (sig, expected, observed)"""
+    conv = _conv(binary)
+    lines = conv(case["old"])
+    what = case["kind"]
+    try:
+        _apply_via(route, lines, conv(case["script"]), binary, _conv(not binary)(case["script"]))
+    except ValueError as e:
+        if what == "apply":
+            return ("ed/apply/raises-ValueError", conv(case["new"]), "ValueError: %s" % (e,))
+        return None
+    except Exception as e:
+        name = type(e).__name__
+        if what == "apply":
+            return ("ed/apply/raises-%s" % name, conv(case["new"]), "%s: %s" % (name, e))
+        return ("ed/%s/raises-%s" % (case["what"], name), "ValueError", "%s: %s" % (name, e))
+    if what == "apply":
+        want = conv(case["new"])
+        if lines != want:
+            return ("ed/apply/wrong-result", want, lines)
+        return None
+    return ("ed/%s/accepted" % case["what"], "ValueError", "no exception; lines = %r" % (lines,))
+
+
+def _routes(case, binary):
+    """the routes of case["routes"] for one type -> None or (sig, expected, observed); a failure that the plain call shows
+    too is left to the plain case"""
+    failing = []
+    ref = False
+    for route in case["routes"]:
+        r = _route_one(case, binary, route)
+        if r is None:
+            continue
+        if ref is False:
+            ref = _one(case, binary, "list")
+        if ref is not None and ref[0].split("/")[:2] == r[0].split("/")[:2]:
+            continue
+        failing.append((route, r))
+    if not failing:
+        return None
+    names = [k for k, _r in failing]
+    label = "every-route" if len(names) > 2 and len(names) == len(case["routes"]) else "+".join(names)
+    route, (sig, exp, obs) = failing[0]
+    parts = sig.split("/")[1:]
+    if parts[0] == "corrupt":
+        parts[:2] = ["malformed-command"]
+    return ("ed/route/%s/%s" % (label, "/".join(parts)), "%r along %s, as for the plain call" % (exp, ", ".join(names)),
+            "%s: %s" % (route, obs))
+
+
 def exec_case(case):
     """-> list of (sig, expected, observed); [] = passes.  Shared by run_unit and replay."""
-    one = _kinds if "via" in case else _one
+    one = _kinds if "via" in case else _routes if "routes" in case else _one
     rs = one(case, False)
     rb = one(case, True)
     if rs is None and rb is None:
@@ -374,8 +527,41 @@ def _derived(old, new, script, src):
                        "script": script[:cut]}, k, form
 
 
+def _run_chain(part, u, tier, seed):
+    sym = symbols(seed)
+    old = u["old"]
+    lists = edscript.all_lists(sym, CHAIN_MAXLEN[tier])
+    part.max_depth = 4 * CHAIN_MAXLEN[tier]
+    for mid in lists:
+        s1 = edscript.diff(old, mid)
+        for new in lists:
+            script = s1 + edscript.diff(mid, new)
+            if edscript.apply(old, script) != new:
+                raise AssertionError("model: %r does not take %r to %r" % (script, old, new))
+            part.states += 1
+            case = {"kind": "apply", "old": old, "new": new, "src": "model-chain", "script": script}
+            bad = exec_chain_case(case)
+            part.traces += 2
+            part.evaluations += 2
+            part.transitions += 2 * len(script)
+            for sig, exp, obs in bad:
+                part.violation(sig, case, exp, obs, rank=len(script))
+            forms = [f for _, _, f in edscript.split_commands(script)]
+            if bad:
+                part.outcomes["VIOLATION:" + bad[0][0]] += 1
+            else:
+                part.outcomes["two scripts in one: applied:%d commands" % len(forms)] += 1
+            if len(forms) >= 2:
+                part.nontrivial += 1
+            part.extra["two successive scripts given as one"] += 1
+    part.sample(case)
+
+
 def run_unit(u, tier, seed):
     part = core.Part()
+    if u.get("space") == "chain":
+        _run_chain(part, u, tier, seed)
+        return part
     if "olds" in u:
         for old in u["olds"]:
             _run_old(part, {"space": u["space"], "old": old}, tier, seed)
@@ -406,7 +592,7 @@ def _run_old(part, u, tier, seed):
 
     def run(case, outcome, nontrivial):
         bad = exec_case(case)
-        n = 2 * len(case.get("via", "1"))       # str and bytes, every input kind
+        n = 2 * len(case.get("via") or case.get("routes") or "1")       # str and bytes, every input kind / route
         part.traces += n
         part.evaluations += n
         part.transitions += n * len(case["script"])
@@ -445,6 +631,10 @@ def _run_old(part, u, tier, seed):
                     part.extra["valid scripts x other input kinds"] += len(KINDS)
                     if idx == len(news) // 2 and src == "model":
                         part.sample(dict(case, via=KINDS))
+                    run(dict(case, routes=ROUTES), "other routes: applied:%s" % ("+".join(forms) or "(empty script)"), len(forms) >= 2)
+                    part.extra["valid scripts x other routes"] += len(ROUTES)
+                    if idx == len(news) // 2 + 1 and src == "model":
+                        part.sample(dict(case, routes=ROUTES))
                 if u["space"] == "base" and len(old) <= CORRUPT_MAXLEN[tier] and len(new) <= CORRUPT_MAXLEN[tier]:
                     tiny = len(old) <= KIND_CORRUPT_ALL_MAXLEN[tier] and len(new) <= KIND_CORRUPT_ALL_MAXLEN[tier]
                     for dcase, k, form in _derived(old, new, script, src):
@@ -458,12 +648,25 @@ def _run_old(part, u, tier, seed):
                         run(dict(dcase, via=via), "other input kinds (%s): rejected:%s@%s-command:%s" % (
                             ", ".join(via), dcase["what"], "first" if k == 0 else "later", form), k > 0)
                         part.extra["corrupted or truncated scripts x other input kinds"] += len(via)
+                        size = max(len(old), len(new))
+                        rts = (REJECT_ROUTES if size <= ROUTE_REJECT_ALL_MAXLEN[tier] else
+                               REJECT_ROUTES_FEW if size <= ROUTE_REJECT_FEW_MAXLEN[tier] else None)
+                        if rts:
+                            run(dict(dcase, routes=rts), "other routes: rejected:%s@%s-command:%s" % (
+                                dcase["what"], "first" if k == 0 else "later", form), k > 0)
+                            part.extra["corrupted or truncated scripts x other routes"] += len(rts)
     finally:
         if differ is not None:
             differ.close()
 
 
+def exec_chain_case(case):
+    return [("ed/two-scripts-in-one/" + sig.partition("/")[2], exp, obs) for sig, exp, obs in exec_case(case)]
+
+
 def replay(case):
+    if case.get("src") == "model-chain":
+        return exec_chain_case(case)
     return exec_case(case)
 
 
